@@ -324,3 +324,24 @@ contract(f"{SVC}::IPv8.unload_overlay", "unload_overlay.unschedules-every-strate
                   "len(calls('maybe_coroutine')) == 1"],
          bounded="0..3 scheduled strategies, each walking for the unloaded overlay or for another one (all 15 assignments)",
          note="adjacent strategies of the same overlay are all removed; strategies of other overlays keep their order")
+
+
+# ---------------------------------------------------------------------------------------------------------------------
+# a message handler that is a coroutine runs as a task OF THE OVERLAY: it is registered with the overlay's task manager, so unload
+# (shutdown_task_manager, contract above) cancels it wherever it is suspended - a bare ensure_future would outlive the overlay
+from contracts.common import TASK_STUBS  # noqa: E402
+
+
+async def slow_handler(source, data):
+    emit("handler-body", source, data)
+
+
+contract("ipv8/community.py::Community.on_packet", "on_packet.coroutine-handlers-are-the-overlays-tasks",
+         vars={"P": BYTES_FIXED(22), "mid": EXPR("77"), "rest": BYTES, "source": ADDRESS,
+               "self": OBJ("ipv8/community.py::Community", _prefix=EXPR("P"), logger=LOGGER(), decode_map=EXPR("[slow_handler] * 256"),
+                           network=EFFECT("network", get_verified_by_address={"returns": EXPR("None")})),
+               "data": EXPR("P + bytes([mid]) + rest")},
+         call="self.on_packet((source, data))", raises=[], stubs=TASK_STUBS,
+         ensures=["len(calls('ensure_future')) == 1", "len(calls('register_anonymous_task')) == 1",
+                  "calls('register_anonymous_task')[0].named['user_task'].coro is calls('ensure_future')[0].args[0]"],
+         note="what on_packet starts for a packet is tracked under the overlay's task manager")
